@@ -73,6 +73,10 @@ CHECKS["C13"] = dict(cat="model_checking", design="DESIGN.md §4 C13",
    text="HttpApi.tla defines the endpoint list expected for an abstract route file: one entry per verb registration in source order, URL by constant folding of the path expression, and the contract read from the handler body (bound input, JSON / pretty / blob return, plain, typed and generic query parameters with their types, form values, form file, JSON form field), for handlers given as methods on value or pointer variables, functions, imported functions and methods, and function literals, with the prefix filter. HttpApiModel.tla fixes the dimension value sets; TLC checks the definition is well-formed on them and exports them; the harness renders seeded route files from them and TraceHttp.tla requires the real extractor's result to equal the expectation entry by entry.",
    note="Trusted: TLC; the renderer of route files (type-checked by the real loader before use). Exactness property: the expectation is the property's own definition. Only the documented handler idioms are generated (assignment forms).",
    tech="TLA+ definition of the expected endpoint list (HttpApi.tla) with TLC-exported dimensions (HttpApiModel.tla) + verdict-style trace validation (TraceHttp.tla) of the real extractor on synthesised route files")
+CHECKS["C14"] = dict(cat="model_checking", design="DESIGN.md §4 C14",
+   text="AxiosSem.tla defines, from an extracted endpoint and argument values, the request the client method must issue (verb, base + URL, JSON body / form data with exactly the declared file, value and JSON fields in order / null for body-less POST and PUT / nothing, query parameters converted to strings, arraybuffer for blobs) and what it must return (data, blob + decoded file name, true). Route files from the TLC-exported dimensions go through the real extractor and the real client generator; the client is parsed (declarations and method signatures: one method per endpoint named after its handler, every mentioned type declared once), its type syntax is stripped and Node executes every method twice against a recording stand-in for axios; TraceAxios.tla compares every recorded call and return value with the definition.",
+   note="Trusted: TLC; the TypeScript parser / stripper of the harness and Node 20 (no tsc here); the positional convention for the body argument (whether real axios honours a data argument on get / delete is not judged). Contradictory contracts (same handler registered twice) are outside the universe.",
+   tech="TLA+ definition of the expected request (AxiosSem.tla) + trace validation (TraceAxios.tla) of calls recorded while Node executes the real generated client against a stand-in axios")
 NOT_APPLICABLE = {}
 ALL = ["C%02d" % i for i in range(1, 21)]
 
